@@ -161,7 +161,8 @@ def parallel_fault_scenario(job: dict[str, Any]) -> dict[str, Any]:
     if job["fault"].split(":")[1:2] == ["fail"] and not rf.get("crash") and not rf.get("machinery"):
         ref = par.run_sequential(src, cache_dir=None)
         if W.norm(rf) != W.norm(ref):
-            out["violations"].append({"step": "faulted", "what": "parallel run with a failed write in a worker reports differently from the sequential build: "
+            # NOT a statement of C04 (which is about the runs that FOLLOW a fault): recorded as a by-product only
+            out.setdefault("byproducts", []).append({"step": "faulted", "what": "parallel run with a failed write in a worker reports differently from the sequential build: "
                                       "only here %r / only sequential %r" % (sorted(set(rf["messages"]) - set(ref["messages"]))[:3], sorted(set(ref["messages"]) - set(rf["messages"]))[:3])})
     # give orphaned workers (their coordinator saw the failure) time to go away: single-writer assumption
     import time as _t
@@ -324,8 +325,12 @@ def main(argv: list[str]) -> int:
     samples = [dict(s) for r in results for s in r["traces"]][:2]
     for s in samples:
         s["runs"] = [[e for e in tr if e["ev"] != "store" or any(e["rec"].startswith(m + ".") for m in "abc")][:30] for tr in s["runs"]][1:4]
+    byp = [x for r in presults for x in r.get("byproducts", [])]
+    if byp:
+        v.notes.append("by-product (outside C04's statement): in %d scenarios the faulted parallel run ITSELF printed something else than the sequential build, e.g. %s"
+                       % (len(byp), byp[0]["what"][:400]))
     coverage = {
-        "states": states, "transitions": transitions,
+        "states": states, "transitions": transitions, "faulted_parallel_runs_that_differ_themselves": len(byp),
         "evaluations": scen, "distinct_nontrivial": nontriv,
         "traces_validated_against_impl": tv["validated"],
         "base_histories": len(work), "parallel_worker_fault_scenarios": len(presults),
